@@ -212,6 +212,15 @@ impl HalfConnection {
             let new_bytes = (send_rate * delta_time).round() as isize;
             let alloc_max = (send_rate * rtt_s.unwrap_or(0.0)).round() as isize;
 
+            if new_bytes == 0 {
+                // Not enough time has passed to earn a single byte at the current send rate. Keep
+                // accumulating from the previous time base: restarting it on every step would
+                // round the credit down to nothing for as long as step() is called more often
+                // than once per 1/(2*send_rate) seconds (e.g. 60 Hz at the minimum rate).
+                self.flush_alloc = self.flush_alloc.min(alloc_max);
+                return;
+            }
+
             self.flush_alloc = self.flush_alloc.saturating_add(new_bytes).min(alloc_max);
 
             //println!("dt: {}s, rtt: {:?}s, rate: {}B/s, new: {}B, max: {}B, val: {}B",
